@@ -117,6 +117,44 @@ def check_decoder_layout(ctx):
                    sorted({str(o.store.get(("SPEC", F("ev_spec", "payload_size")))) for o in outs}), want))
     ctx.need(n >= 100, "R18.4: %d cases" % n)
 
+    # the check the printer makes before decoding accepts every declared event carrying a payload of its
+    # declared shape (fixed arguments: exactly the declared bytes; a trailing string: the declared bytes plus
+    # a terminated string)
+    from ovsa import models as _models
+    chk = prog.fn("ev_spec_check_payload", ES, required=False) if "required" in prog.fn.__code__.co_varnames else None
+    if chk is None:
+        cands = [g for g in prog.fns_in(ES) if g.name == "ev_spec_check_payload"]
+        chk = cands[0] if cands else None
+    ctx.need(chk is not None, "ev_spec_check_payload not found")
+    tyv = {nm.lower(): v for nm, v in prog.enums["ev_arg_type"]["enumerators"]}
+    ndec = 0
+    for m in _models.discover(prog):
+        for e in m.events:
+            if e.parsed is None or not e.parsed["args"]:
+                continue
+            ndec += 1
+            has_str = any(a[0] == "str" for a in e.parsed["args"])
+            have = e.parsed["payload_size"] + (5 if has_str else 0)
+            store = {("SPEC", F("ev_spec", "nargs")): INT(len(e.parsed["args"])),
+                     ("SPEC", F("ev_spec", "payload_size")): INT(e.parsed["payload_size"]),
+                     ("SPEC", F("ev_spec", "is_jumbo")): INT(1 if e.parsed["jumbo"] else 0),
+                     ("EV", F("emu_ev", "payload")): PTR("PL"), ("EV", F("emu_ev", "payload_size")): INT(have),
+                     ("EV", F("emu_ev", "is_jumbo")): INT(1 if e.parsed["jumbo"] else 0)}
+            for k_, (ty, nm, off, sz) in enumerate(e.parsed["args"]):
+                ap = F("ev_spec", "args") + (k_,)
+                store[("SPEC", ap + F("ev_arg", "type"))] = INT(tyv[ty])
+                store[("SPEC", ap + F("ev_arg", "offset"))] = INT(off)
+                store[("SPEC", ap + F("ev_arg", "size"))] = INT(sz)
+            exc = absint.Explorer(prog, effects=eff, loop_bound=len(e.parsed["args"]) + 3,
+                                  summaries={"memchr": lambda ex_, st, a, f, e_: [(PTR("NULPOS"), {})]})
+            outs = [o for o in exc.run(chk, [PTR("SPEC"), PTR("EV")], store) if o.kind == "ret"]
+            ctx.check(bool(outs) and all(o.ret == INT(0) for o in outs), "R18.4",
+                      "%s:%s:declared-shape-decodable" % (m.name, e.mcv), chk.loc(),
+                      "%s carrying a payload of its declared shape '%s' (%d bytes%s) is refused by the printer's "
+                      "payload check: ovnidump prints UNKNOWN for a listed event" %
+                      (e.mcv, e.sig, have, ", string terminated" if has_str else ""))
+    ctx.need(ndec >= 15, "R18.4: only %d declared events with arguments" % ndec)
+
 
 def run(ctx):
     prog = ctx.prog
